@@ -954,7 +954,7 @@ func runC50Opts(c *Ctx, nm c50Names, fl c50Floors) {
 	c.Rule("C50-O2", "per iterator field that carries an option of "+nm.loadType+"/"+nm.intoType+": it is initialised from one option only and, if it is named after an option, from that option", fl.o2)
 	c.Rule("C50-O3", "NULL representation: what the writer emits for a nil value with escaping disabled / enabled is what the reader maps to NULL (word compared against the field; escape letter whose arm produces such a word)", fl.o3)
 	c.Rule("C50-O4", "per option value that the planbuilder rejects for "+nm.loadType+": the same canonical condition is rejected for "+nm.intoType+" (a file cannot be written with options that the reader refuses)", fl.o4)
-	c.Rule("C50-O5", "per executor function and option with a non-empty default: the default delimiter is not hard-coded (no comparison/search of input data against, and no emission of, the literal default instead of the option)", fl.o5)
+	c.Rule("C50-O5", "per executor function and option with a non-empty default: the default delimiter is not hard-coded: the writer emits no text containing the literal default, and neither executor uses a constant equal to it anywhere else (except, in the reader, as the text an escape letter stands for, and in a comparison with the option itself)", fl.o5)
 	c.Rule("C50-O6", "every "+nm.intoCtor+" call that names an output file and every "+nm.loadCtor+" call is followed, in the same planbuilder function, by the statement overrides of every option on the new node; literals of the two node types occur only in their constructors (copies keep the options)", fl.o6)
 	m := c50newModel(c, nm)
 	if m == nil || len(m.opts) == 0 {
@@ -1860,16 +1860,6 @@ func (m *c50o) ruleO5(w *c50execFn, readers []*c50execFn) {
 			}
 			return false
 		}
-		anyConst := func(root ast.Node, d string, contains bool) token.Pos {
-			pos := token.NoPos
-			ast.Inspect(root, func(n ast.Node) bool {
-				if e, ok := n.(ast.Expr); ok && !pos.IsValid() && constIs(e, d, contains) {
-					pos = e.Pos()
-				}
-				return !pos.IsValid()
-			})
-			return pos
-		}
 		for _, d := range ds {
 			var hits []string
 			hitPos := token.NoPos
@@ -1879,45 +1869,64 @@ func (m *c50o) ruleO5(w *c50execFn, readers []*c50execFn) {
 				}
 				hits = append(hits, what+" at "+c.P.Rel(pos))
 			}
-			ast.Inspect(ef.fd.Body, func(n ast.Node) bool {
-				switch v := n.(type) {
-				case *ast.BinaryExpr:
-					if v.Op == token.EQL || v.Op == token.NEQ {
-						if constIs(v.X, d.s, false) && !mentionsOpt(v.Y) {
-							hit(v.Pos(), "comparison "+types.ExprString(v))
-						} else if constIs(v.Y, d.s, false) && !mentionsOpt(v.X) {
-							hit(v.Pos(), "comparison "+types.ExprString(v))
-						}
+			// every outermost constant expression of the function, with its context
+			exempt := map[ast.Expr]bool{} // constants compared with an expression that itself is the option
+			var visit func(n ast.Node, inWrite bool)
+			visit = func(root ast.Node, inWrite bool) {
+				ast.Inspect(root, func(n ast.Node) bool {
+					if n == nil || n == root {
+						return true
 					}
-				case *ast.SwitchStmt:
-					if v.Tag != nil && !mentionsOpt(v.Tag) {
-						for _, cl := range v.Body.List {
-							for _, e := range cl.(*ast.CaseClause).List {
-								if constIs(e, d.s, false) {
-									hit(e.Pos(), "case "+types.ExprString(e)+" of switch "+types.ExprString(v.Tag))
+					switch v := n.(type) {
+					case *ast.BinaryExpr:
+						if v.Op == token.EQL || v.Op == token.NEQ {
+							if mentionsOpt(v.Y) {
+								exempt[ast.Unparen(v.X)] = true
+							}
+							if mentionsOpt(v.X) {
+								exempt[ast.Unparen(v.Y)] = true
+							}
+						}
+					case *ast.SwitchStmt:
+						if v.Tag != nil && mentionsOpt(v.Tag) {
+							for _, cl := range v.Body.List {
+								for _, e := range cl.(*ast.CaseClause).List {
+									exempt[ast.Unparen(e)] = true
 								}
 							}
 						}
-					}
-				case *ast.CallExpr:
-					fn := Callee(info, v)
-					if fn != nil && fn.Pkg() != nil && (fn.Pkg().Path() == "strings" || fn.Pkg().Path() == "bytes") && fn.Type().(*types.Signature).Recv() == nil {
-						for _, a := range v.Args {
-							if p := anyConst(a, d.s, false); p.IsValid() {
-								hit(p, "argument of "+fn.Pkg().Name()+"."+fn.Name())
+					case *ast.CallExpr:
+						if !inWrite && c50isWriteCall(info, v) {
+							visit(v.Fun, inWrite)
+							for _, a := range v.Args {
+								visit(&ast.ParenExpr{X: a}, true)
 							}
+							return false
 						}
 					}
-					if ef == w && c50isWriteCall(info, v) {
-						for _, a := range v.Args {
-							if p := anyConst(a, d.s, true); p.IsValid() {
-								hit(p, "text emitted by "+types.ExprString(v.Fun))
-							}
+					e, ok := n.(ast.Expr)
+					if !ok || f.cx.constOf(e) == nil {
+						return true
+					}
+					if exempt[ast.Unparen(e)] {
+						return false
+					}
+					switch {
+					case ef == w && inWrite:
+						if constIs(e, d.s, true) {
+							hit(e.Pos(), "emitted text "+types.ExprString(e))
+						}
+					case ef != w && inWrite:
+						// what an escape letter stands for (\n -> newline) is appended, not matched against the input
+					default:
+						if constIs(e, d.s, false) {
+							hit(e.Pos(), "constant "+types.ExprString(e))
 						}
 					}
-				}
-				return true
-			})
+					return false
+				})
+			}
+			visit(ef.fd.Body, false)
 			key := DeclName(ef.fd) + "/" + d.opt
 			if len(hits) == 0 {
 				c.Ok("C50-O5", key, ef.fd.Pos(), "no literal "+strconv.Quote(d.s))
